@@ -1,7 +1,7 @@
 // Harness for C08: interprets scripts against RandomTools' cumulative / quantile functions.
 //
 // Answer grammar: <outcome> { ; <tag> <arg>... <outcome> }
-//   outcome = 16 hex digits | nan | exc:bpp
+//   outcome = 16 hex digits | nan | exc:bpp | hang (no answer within 2 s of CPU)
 // The groups after the first are values of *public* RandomTools functions at the points the
 // wrapper under test is supposed to query them (computed here with the same expression as in
 // the header); the driver uses them as the kernels' values (lean/BppModel/DistGuards.lean).
@@ -11,12 +11,30 @@
 #include <Bpp/Exceptions.h>
 #include <cmath>
 #include <functional>
+#include <csetjmp>
+#include <csignal>
+#include <sys/time.h>
 using namespace bpp; using namespace verif;
 
 static std::string H(double d) { return std::isnan(d) ? "nan" : doubleToHex(d); }
 static double D(const std::string& s) { return s == "nan" ? std::nan("") : hexToDouble(s); }
+// Watchdog: a call that uses more than OP_LIMIT seconds of CPU is abandoned and answered `hang`
+// (the functions under test are pure arithmetic, so jumping out of them is harmless here).
+static const double OP_LIMIT = 2.0;
+static sigjmp_buf g_jmp;
+static void onAlarm(int) { siglongjmp(g_jmp, 1); }
+static void arm(double sec) {
+  struct itimerval it; std::memset(&it, 0, sizeof it);
+  it.it_value.tv_sec = static_cast<long>(sec); it.it_value.tv_usec = static_cast<long>((sec - static_cast<long>(sec)) * 1e6);
+  setitimer(ITIMER_VIRTUAL, &it, nullptr);
+}
 static std::string O(std::function<double()> f) {
-  try { return H(f()); } catch (Exception&) { return "exc:bpp"; }
+  if (sigsetjmp(g_jmp, 1)) return "hang";
+  arm(OP_LIMIT);
+  std::string r;
+  try { r = H(f()); } catch (Exception&) { r = "exc:bpp"; }
+  arm(0);
+  return r;
 }
 typedef RandomTools R;
 
@@ -52,7 +70,7 @@ static std::string op(const Toks& t) {
     // q is as good as a double can be when the neighbours' cdf values bracket p
     const std::string& fam = t[1]; double p = D(t[3]), a = D(t[4]), b = D(t[5]);
     std::string q = E("q" + fam, p, a, b);
-    if (q == "exc:bpp" || q == "nan") return q + " " + q + " " + q + " " + q;
+    if (q == "exc:bpp" || q == "nan" || q == "hang") return q + " " + q + " " + q + " " + q;
     double qv = D(q), lo = std::nextafter(qv, -INFINITY), hi = std::nextafter(qv, INFINITY);
     if (fam == "beta") { if (lo < 0) lo = 0; if (hi > 1) hi = 1; }
     if (fam == "gamma" || fam == "chisq") { if (lo < 0) lo = 0; }
@@ -104,4 +122,4 @@ static std::string op(const Toks& t) {
   return "bad-op";
 }
 
-int main() { return runLoop([](const Toks&) {}, op); }
+int main() { std::signal(SIGVTALRM, onAlarm); return runLoop([](const Toks&) {}, op); }
